@@ -1092,3 +1092,20 @@ M("c16-lastindexof-nan-is-zero", ["C16"], VM,
 M("c14-emit-check-dropped", ["C14"], CO,
   "                if not 0 <= arg <= 0xFFFF:\n", "                if False:\n",
   [("C14", "C14-R1", "_emit")], note="the range check of emitted jump targets disabled")
+
+# ---- wave 11 --------------------------------------------------------------------------------------------
+S("seed-C02-g", ["C02"], "seeded/C02-g/patch.diff", [("C02", "C02-R3c", "host_depth")], note="host_depth turned from a shared one-element list into a plain int: nested interpreters count on private copies")
+S("seed-C03-f", ["C03"], "seeded/C03-f/patch.diff", [("C03", "C03-R10", "eval_fn")], note="the script's eval() and Function go through Context.eval, whose result is converted for the embedder", silent=("C01", "C07", "C15"))
+TP("t-eval-reentrant", ALL_PROPS, "selftest/patches/t-eval-reentrant.diff", note="the same re-entrant evaluation with the raw completion value handed to the script (repaired C03-f)")
+S("seed-C05-g", ["C05", "C02"], "seeded/C05-g/patch.diff", [("C05", "C05-R3", "switch"), ("C02", "C02-R6", "switch")], note="a labelled switch carries its labels itself; the unlabelled-break search still skips every labelled non-loop context")
+TP("t-labelled-switch-context", ALL_PROPS, "selftest/patches/t-labelled-switch-context.diff", note="the same refactoring with an is_switch flag that the break search consults (repaired C05-g)")
+S("seed-C07-g", ["C07"], "seeded/C07-g/patch.diff", [("C07", "C07-R4", "_compile_statement_for_value:TryStatement:catch.finally:throw-from-catch")], note="try statements get a completion value; the value compiler's copy of the lowering leaves out the second handler around the catch clause", silent=("C02", "C05"))
+TP("t-try-completion-value", ALL_PROPS, "selftest/patches/t-try-completion-value.diff", note="the same feature with the guarded catch clause (repaired C07-g)")
+S("seed-C08-f", ["C08"], "seeded/C08-f/patch.diff", [("C08", "C08-R16", "_get_local:_uses_arguments")], note="arguments object built only when _get_local saw the name; a captured `arguments` is resolved by _get_cell_var first")
+TP("t-arguments-built-on-demand", ALL_PROPS, "selftest/patches/t-arguments-built-on-demand.diff", note="the same optimisation with both look-ups recording the use (repaired C08-f)")
+S("seed-C10-f", ["C10", "C04"], "seeded/C10-f/patch.diff", [("C10", "C10-R5", "_parse_group_name"), ("C04", "C04-R5", "_parse_group_name")], note="named groups: the name scanner loops on `_peek() != '>'` without an end-of-pattern test")
+S("seed-C12-f", ["C12"], "seeded/C12-f/patch.diff", [("C12", "C12-R7", "_get_property")], note="array methods bound once per array and kept on the array: closures over the interpreter of the eval that read them first", silent=("C03", "C05"))
+S("seed-C17-f", ["C17"], "seeded/C17-f/patch.diff", [("C17", "C17-R14", "set_fn")], note="TypedArray.set snapshots the source from its per-view cache instead of reading through the buffer (second author, the slip of C17-e)")
+S("seed-C19-f", ["C19"], "seeded/C19-f/patch.diff", [("C19", "C19-R8", "pattern")], note="own JSON string quoting with a nothing-to-escape fast path anchored with `$`: one trailing line feed is copied raw", silent=("C12", "C15", "C18"))
+TP("t-json-quote-own", ALL_PROPS, "selftest/patches/t-json-quote-own.diff", note="the same quoting with the fast path anchored by \\\\Z (repaired C19-f)")
+S("seed-C20-f", ["C20"], "seeded/C20-f/patch.diff", [("C20", "C20-R10", "search")], note="search through the regex's own exec with lastIndex saved and restored; the no-match exit returns before the restore")
